@@ -123,10 +123,17 @@ def _expand_flags(e, func, locals_, depth):
         def visit_Name(self, node):
             if depth < 2 and isinstance(node.ctx, ast.Load) and node.id in locals_:
                 d = _single_def(func, node.id)
-                if d is not None and _is_boolean_expr(d):
+                if d is not None and (_is_boolean_expr(d) or _is_set_expr(d)):
                     return _expand_flags(clone(d), func, locals_, depth + 1)
             return node
     return T().visit(e)
+
+
+def _is_set_expr(d) -> bool:
+    """`set(a) | {1}`-like definitions of an allowed/forbidden set used by one guard."""
+    return isinstance(d, ast.Set) or (isinstance(d, ast.BinOp) and isinstance(d.op, (ast.BitOr, ast.BitAnd))
+                                     and any(isinstance(x, ast.Set) or (isinstance(x, ast.Call) and call_name(x) in ("set", "frozenset"))
+                                             for x in (d.left, d.right)))
 
 
 def _is_boolean_expr(d) -> bool:
@@ -652,7 +659,12 @@ def rule_symbolic_hermiticity(rep: Report, repo: Repo):
     for caller, callee, val in chain:
         fn = repo.find(f"{MOD}::{caller}", R)
         calls = [c for c in own_nodes(fn) if isinstance(c, ast.Call) and call_name(c) == callee]
-        ok = bool(calls) and all({k.arg: norm(k.value) for k in c.keywords}.get("check_hermitian") == val for c in calls)
+        from .sem import bind_args
+        cdef = repo.find(f"{MOD}::{callee}", R)
+        bound = [bind_args(cdef, c) for c in calls]
+        if any(b is None for b in bound):
+            raise AnalysisError(R, f"cannot bind the arguments of a call to {callee} in {caller}")
+        ok = bool(calls) and all(norm(b["check_hermitian"]) == val for b in bound)
         rep.check(ok, R, f"{MOD}::{caller} passes check_hermitian={val} to {callee}", "", loc(fn))
 
 
